@@ -88,6 +88,7 @@ func randomRp(r *rand.Rand) planT {
 	p.rp = rpTok(kind, k, tails[r.Intn(len(tails))])
 	p.prov = "late.nil"
 	p.ammo = k
+	p.rg = "" // the guns of a registered factory want that factory's kind of ammo
 	if p.inst == 0 {
 		p.inst = 1
 	}
